@@ -233,7 +233,31 @@ def check_property(pid, tier, only_group=None, only_unit=None, verbose=False):
                     row.setdefault('failing_as_known_finding', []).append(ob['name'][:200])
             else:
                 real_P.append(ob)
-        if real_P:
+        lc_broken = [o for o in fails_A if o['name'].startswith(('loop_invariant', 'loop_assigns', 'loop_decreases', 'decreases', 'loop_step'))]
+        if real_P and lc_broken and u.get('enforce') and u.get('loop_contracts', True) and not u.get('_second') and not u.get('_no_loop_contracts'):
+            # the loop contract itself no longer holds for this code: property failures were evaluated in loop states
+            # described by an invariant that is not the code's; they count only if a run WITHOUT loop contracts
+            # (bounded falsification on the real loop) reproduces a property failure
+            u2 = dict(u)
+            u2['name'] = u['name'] + '.nolc'
+            u2['_no_loop_contracts'] = True
+            found = False
+            try:
+                cfile, lines, spans, outdir = prepared[spec['name']]
+                r2 = runner.run_unit(spec, u2, cfile, lines, outdir, tier)
+                p2 = [o for o in r2['obligations'] if o['cls'] == 'P' and o['status'] == 'FAILURE'
+                      and not known_match(known, pid, r['group'], r['name'], o)]
+                if p2:
+                    r2['group'] = r['group']
+                    r2['unit'] = u2
+                    violations.append((spec, r2, p2))
+                    found = True
+            except Undecided as e:
+                pass
+            if not found:
+                undecided.append('%s/%s: loop contract broken (%s); property failures under the stale invariant were not reproduced on the real loop (bounded re-run): not refuted' % (
+                    r['group'], r['name'], lc_broken[0]['name'][:160]))
+        elif real_P:
             violations.append((spec, r, real_P))
         elif fails_A and not fails_P:
             # proof broken, not refuted: look for a P counterexample without loop contracts (bounded falsification)
